@@ -35,7 +35,8 @@ func (c14) Info() core.Info {
 		Title: "Statically wrong statements are rejected before any storage access",
 		Level: "exploration",
 		Rule: "typed contexts C[.] with a hole of known type (WHERE root of select/delete, under !, either side of & | and or, comparison / prefix / regexp operands, arithmetic operands, function arguments, IN left and list elements, BETWEEN subject and bounds, select fields with and without alias, ORDER BY / GROUP BY source fields, PUT keys and values, REMOVE keys), composed to depth 2 (thorough: 3); each hole is filled (a) with every well-typed filler of the expected type => the statement must be ACCEPTED and its execution over numeric stores in both modes must never fail with an operand-type error; (b) with every single fault: a well-typed filler of a wrong type where the context types its operand, or a faulty atom (operator on unsupported operand types, non-Boolean under !, unknown function, wrong argument count, literal zero divisor, forbidden key/value keyword) => BuildPlan must fail and the storage call log must be empty. " +
-			"Non-trivial: every mutant (one fault at one syntactic position). Distinct: the statement text.",
+			"Non-trivial: every mutant (one fault at one syntactic position). Distinct: the statement text." +
+			" Also: aggregates at every operand position of a select field (under !, both sides of IN and BETWEEN, inside their lists) must be accepted and run (`Cannot find function` at execution is a static fault that waited for the first row); 90 rejected statements whose aggregate has a constant argument of the wrong type over every access path that opens a cursor on Init.",
 		Assumptions: []string{
 			"only faults that violate a documented typing rule unambiguously are generated; no argument-type faults for functions (README declares most parameters `any`)",
 			"results of [..] indexing into JSON documents and into lists read from text are dynamically typed and excluded; elements of lists built from numbers (int_list, float_list, list of numbers) are numbers",
